@@ -23,13 +23,26 @@ func (s *verifPlanSeg) LiveFileSize() int64 { return s.live * 10 }
 // assigned to at most one task (a segment merged twice would duplicate its documents), every task
 // consists of input segments, no task merges a single fully-live segment with nothing, and planning
 // terminates.
-func VerifH_C05_Plan() {
+func VerifH_C05_Plan() { verifPlan(false) }
+
+// VerifH_C05_PlanSkips: four segments already in planning order (live sizes descending), three
+// segments per task, always over budget: the family in which a roster can skip a segment that would
+// overflow the maximum merged size and pick a later, smaller one.
+func VerifH_C05_PlanSkips() { verifPlan(true) }
+
+func verifPlan(skips bool) {
 	n := rt.Choice("nsegs", rt.Param("max_segs", 3)+1)
+	if skips {
+		n = 4
+	}
 	segs := make([]Segment, n)
 	stubs := make([]*verifPlanSeg, n)
 	for i := 0; i < n; i++ {
 		s := &verifPlanSeg{id: uint64(i + 1), full: rt.I64("full"), live: rt.I64("live")}
 		rt.Assume(rt.And(s.full >= 1, s.full <= 50, s.live >= 0, s.live <= s.full))
+		if skips && i > 0 {
+			rt.Assume(rt.And(s.live >= 1, s.live < stubs[i-1].live))
+		}
 		stubs[i] = s
 		segs[i] = s
 	}
@@ -41,8 +54,16 @@ func VerifH_C05_Plan() {
 		FloorSegmentSize:     rt.I64("floor"),
 		ReclaimDeletesWeight: 2.0,
 	}
+	if skips {
+		o.SegmentsPerMergeTask = 3
+		o.MaxSegmentsPerTier = 2
+		o.FloorSegmentSize = 1
+	}
 	rt.Assume(rt.And(o.MaxSegmentsPerTier >= 1, o.MaxSegmentsPerTier <= 4, o.MaxSegmentSize >= 2, o.MaxSegmentSize <= 200, o.FloorSegmentSize >= 1, o.FloorSegmentSize <= 50))
 	o.CalcBudget = func(totalSize int64, firstTierSize int64, o *MergePlanOptions) int {
+		if skips {
+			return 0
+		}
 		b := rt.I64("budget")
 		rt.Assume(rt.And(b >= 0, b <= 8))
 		return int(b)
@@ -80,4 +101,27 @@ func VerifH_C05_Plan() {
 		rt.Assert(used[i] <= 1, "a segment is assigned to at most one merge task")
 	}
 	rt.Cover(len(p.Tasks) >= 2, "two-tasks")
+	if skips {
+		nonContig := false
+		for _, t := range p.Tasks {
+			in := make([]bool, n)
+			for _, sg := range t.Segments {
+				for i := range stubs {
+					if sg == Segment(stubs[i]) {
+						in[i] = true
+					}
+				}
+			}
+			for i := 0; i < n; i++ {
+				for j := i + 1; j < n; j++ {
+					for k := j + 1; k < n; k++ {
+						if in[i] && !in[j] && in[k] {
+							nonContig = true
+						}
+					}
+				}
+			}
+		}
+		rt.Cover(nonContig, "roster-skipped-a-segment")
+	}
 }
